@@ -437,7 +437,7 @@ FACETS = [
           nontrivial=nontriv_index, classify=classify_index, shards={"quick": 4, "thorough": 8},
           rule="Z/4, dimension 1..3 (1..4): every int index, every slice (start/stop in {None,-n..n}, step in {None,1,2,3}), every index "
                "list/tuple of length <= n incl. repeats and negative entries; read, then write through it"),
-    Facet("index-sampled", check_index, strategy=index_strategy, budget={"quick": 5000, "thorough": 100000},
+    Facet("index-sampled", check_index, strategy=index_strategy, budget={"quick": 5000, "thorough": 100000}, fuzz={"thorough": 100000},
           nontrivial=nontriv_index, classify=classify_index,
           rule="all rings, dimension 1..20, int/slice/list/tuple indices, writes with list/tuple/Poly/bytes/Bits values"),
     Facet("chunking", check_chunk, strategy=chunk_strategy, budget={"quick": 3000, "thorough": 60000},
